@@ -601,6 +601,24 @@ def rule_c12_rng(prog: Program, col: Collector) -> None:
                       f"(a module RNG or a `global` counter) instead of the per-environment stream",
                       "every pool worker starts from its own copy of that state: with processes >= 2 the repetitions of a chunk replay those of the other chunks, and the "
                       "result differs from the sequential run - for a fixed seed the result depends on the number of worker processes", rule="Q3")
+    # ---- a registered generator that re-seeds itself from a LITERAL draws the same game for every repetition
+    const_seeded: dict[str, list[str]] = {}
+    for key, tref, kwargs, entry, *_rest in generator_targets(prog):
+        if tref is None:
+            continue
+        tft = fterms(prog, tref)
+        for ev in tft.calls():
+            if is_global(ev.func, "numpy.random.default_rng", "numpy.random.Generator", "numpy.random.RandomState", "random.Random", "numpy.random.seed", "random.seed") \
+                    and ev.args and ev.args[0][0] == "const" and type(ev.args[0][1]) is int and not any(f[0] in ("if",) for f in ev.ctx):
+                const_seeded.setdefault(tref.short, []).append(key)
+                refs[tref.short] = tref
+                break
+    for short_name, keys in sorted(const_seeded.items()):
+        tref = refs[short_name]
+        col.violation(tref.where(), tref.short, "constant-seed-generator",
+                      f"registry entr{'ies' if len(keys) > 1 else 'y'} {', '.join(sorted(set(keys)))}: the generator replaces the stream it is given by one seeded with a literal",
+                      "every call returns the same game: all repetitions of an evaluation are played on one hidden game - replays of one another, for every seed and process count",
+                      rule="Q3")
     if not by_target:
         col.ok("-", "generators", "no registered generator draws from module-level state", rule="Q3")
     if nsites == 0:
